@@ -388,6 +388,12 @@ class DictList(list):
     def insert(self, index: int, entity: Object) -> None:
         """Insert entity before index."""
         self._check(entity.id)
+        # normalise the position the same way list.insert does
+        length = len(self)
+        if index < 0:
+            index = max(index + length, 0)
+        elif index > length:
+            index = length
         list.insert(self, index, entity)
         # all subsequent entries now have been shifted up by 1
         _dict = self._dict
